@@ -576,7 +576,7 @@ class Ref:
         case = self.case
         kind, rows = self.kind, [r for r in self.rows]
         self.compare_branches(stats, stats)
-        if self.fails and len(stats) > 1:
+        if self.fails and len(stats) > 1 and not lists_applied_in_order():
             # recorded defect: Environments.impute applies only the last statistic of a list
             alt = Ref(case, kind, rows, self.impl, self.label)
             alt.compare_branches(stats[-1:], stats[-1:])
@@ -618,10 +618,27 @@ class Ref:
                 colv = column(kind0, self.rows, k)
                 if colv[0] is None and not any(is_str(v) for v in colv if v is not ABSENT):
                     p20 = True
+        # causes of the findings recorded in phase 2 (narrow signatures): nan not treated as missing (C11-F13),
+        # no indicator for a feature with missing values but without imputation (C11-F14)
+        flat = [v for r in self.rows for v in (r if kind0 == "dense" else [x for _, x in r] if kind0 == "sparse" else [r])]
+        nan_case = any(v == NAN for v in flat)
+        f14_case = False
+        if (kind0 in ("dense", "sparse") or len(stats) > 1) and self.case.get("ind") and self.rows:
+            win = window_rows(self.case, self.rows)
+            for k in feature_keys(kind0, self.rows):
+                wraw = column(kind0, win, k)
+                if any(v is not ABSENT and is_missing(v) for v in wraw):
+                    vals = [v for v in column(kind0, self.rows, k) if v is not ABSENT]
+                    nonmiss = [(V(0) if v is ABSENT else v) for v in wraw if v is ABSENT or not is_missing(v)]
+                    if not nonmiss or (any(is_str(v) for v in vals) and any(st in ("mean", "median") for st in stats)):
+                        f14_case = True
+        self._ind_sig = ("impute-nan-not-missing" if nan_case else
+                         "impute-indicator-omitted-without-imputation" if f14_case else None)
         for i, o in enumerate(out):
             e = exp.rows[i]
             if o["kind"] != exp.kind:
-                self.fail("row %d: expected a %s context, got %s" % (i, exp.kind, o["kind"]), "impute-context-kind:%s:%s" % (kind0, st_label))
+                self.fail("row %d: expected a %s context, got %s" % (i, exp.kind, o["kind"]),
+                          self._ind_sig or "impute-context-kind:%s:%s" % (kind0, st_label))
                 return
             if exp.kind == "scalar":
                 self.cmp_cell(i, 0, e, o["v"], st_label)
@@ -631,7 +648,8 @@ class Ref:
                 if exp.len_exact and len(o["v"]) != len(e):
                     self.fail("row %d: expected %d features (with missingness indicators), got %d: %s" %
                               (i, len(e), len(o["v"]), [show(v) for v in o["v"]]),
-                              "impute-first-row-none-not-imputed" if (p20 and len(o["v"]) < len(e)) else "impute-indicator-count:%s:%s" % (kind0, st_label))
+                              self._ind_sig or ("impute-first-row-none-not-imputed" if (p20 and len(o["v"]) < len(e)) else
+                                                "impute-indicator-count:%s:%s" % (kind0, st_label)))
                     return
                 for k in range(len(self.rows[i]) if kind0 == "dense" else 1, min(len(e), len(o["v"]))):
                     self.cmp_cell(i, k, e[k], o["v"][k], st_label)
@@ -641,6 +659,7 @@ class Ref:
                 for k in ek:
                     if k not in ok:
                         self.fail("row %d: key %r is missing from the result" % (i, k),
+                                  (self._ind_sig if k.endswith("_is_missing") else None) or
                                   "impute-%s:%s:%s" % ("indicator-missing" if k.endswith("_is_missing") else "key-lost", kind0, st_label))
                         continue
                     self.cmp_cell(i, k, ek[k], ok[k], st_label)
@@ -662,12 +681,18 @@ class Ref:
             return
         if not self.val_eq(got, e):
             sig = "impute-value-changed:%s:%s" % (kind0, st_label)
+            if isinstance(e, dict) and e.get("indicator") and getattr(self, "_ind_sig", None):
+                sig = self._ind_sig
+            if e is None and got == NAN and getattr(self, "_ind_sig", None) == "impute-nan-not-missing":
+                sig = "impute-nan-not-missing"      # the statistic of a window holding nan came out nan
             if e is None and is_str(got) and kind0 == "scalar" and "median" in st_label:
                 sig = "impute-median-imputes-string"
             self.fail("row %d feature %r: expected %s, got %s" % (i, k, show(e), show(got)), sig)
 
     def impute_sig(self, e, got, st_label):
         kind0 = self.kind
+        if (e.get("nan_in_window") or e.get("was_nan")) and (got == NAN or e.get("was_nan") or e.get("nan_in_window")):
+            return "impute-nan-not-missing"
         if got is None:
             if e.get("outside_window"):
                 return "impute-missing-kept:sparse-key-outside-window"
@@ -684,6 +709,10 @@ class Ref:
 
 
 ANY = "any"
+
+
+def is_missing(v):
+    return v is None or v == NAN
 
 
 def is_oneof(v):
@@ -705,29 +734,32 @@ class ImputeRef:
         self.kind, self.rows, self.len_exact, self.optional_keys = kind, rows, len_exact, set(optional_keys)
 
     def step(self, st, ind, using):
+        """one Impute pass.  Missing = None or nan.  An indicator is pinned for EVERY feature with a missing value in
+        the window (imputable or not) — the reading decided in notes/C11.md, phase 2."""
         kind, rows = self.kind, self.rows
         if not rows or kind == "unknown":
             return [self]
         orig = rows
         rows = [([resolve(v) for v in r] if kind == "dense" else [[k, resolve(v)] for k, v in r] if kind == "sparse" else resolve(r)) for r in rows]
         win = rows if using is None else rows[:using]
+        if ind and any(v is ANY or is_oneof(v) for r in win for v in (r if kind == "dense" else [x for _, x in r] if kind == "sparse" else [r])):
+            return [ImputeRef("unknown", orig, False, ())]    # missingness in the window after an unpinned earlier pass is unknown
         keys = feature_keys(kind, rows)
-        imps, bins, optional = {}, [], []
+        imps, bins = {}, []
         for k in keys:
             colv = column(kind, rows, k)
             wraw = column(kind, win, k)
             wcol = [(V(0) if v is ABSENT else v) for v in wraw]
-            none_in_win = any(v is None for v in wraw)
+            miss_in_win = any(is_missing(v) for v in wraw)
             present = [v for v in colv if v is not ABSENT]
             unknown = any(v is ANY or is_oneof(v) for v in present)
             has_str = any(is_str(v) for v in present)
             has_num = any(is_num(v) or v == NAN for v in present) or len(present) < len(colv)   # absent sparse key = 0
-            nonmiss = [v for v in wcol if v is not None]
-            pinned = False
-            if unknown or (has_str and has_num) or any(v == NAN for v in nonmiss):
-                imps[k] = ANY         # mixed / nan / already-unpinned column: nothing demanded of its None cells
+            nonmiss = [v for v in wcol if not is_missing(v)]
+            if unknown or (has_str and has_num):
+                imps[k] = ANY         # mixed / already-unpinned column: nothing demanded of its missing cells
             elif not nonmiss:
-                imps[k] = ANY         # no statistic exists on this window
+                imps[k] = None        # no statistic exists on this window: the missing values stay as they are
             elif st in ("mean", "median") and has_str:
                 imps[k] = None        # not imputable by mean/median: left untouched
             else:
@@ -750,44 +782,39 @@ class ImputeRef:
                     m = max(c[1] for c in cnt)
                     cands, why = [c[0] for c in cnt if c[1] == m], "a mode"
                 imps[k] = {"oneof": cands, "why": why, "first_none": first_none, "stat": st,
+                           "nan_in_window": any(v == NAN for v in wcol),
                            "outside_window": kind == "sparse" and all(v is ABSENT for v in wraw)}
-                pinned = True
-            if ind and none_in_win:
-                (bins if pinned else optional).append(k)
+            if ind and miss_in_win:
+                bins.append(k)
 
         def newcell(k, v):
-            if v is None:
-                return imps[k]            # None (stays), ANY, or the imputation
+            if is_missing(v):
+                if imps[k] is None:
+                    return v              # stays as it is
+                if imps[k] is ANY:
+                    return ANY
+                return dict(imps[k], was_nan=(v == NAN))
             return v
+
+        def bit(v):
+            return dict(V(1 if (v is not ABSENT and is_missing(v)) else 0), indicator=True)
 
         new_rows = []
         for r in orig:        # cells imputed by an earlier pass keep their provenance
             if kind == "scalar":
                 nv = newcell(0, r)
-                new_rows.append([nv, V(1 if r is None else 0)] if bins else nv)
+                new_rows.append([nv, bit(resolve(r))] if bins else nv)
             elif kind == "dense":
                 nr = [newcell(k, v) for k, v in enumerate(r)]
-                nr += [V(1 if r[k] is None else 0) for k in bins]
+                nr += [bit(resolve(r[k])) for k in bins]
                 new_rows.append(nr)
             else:
                 nr = [[k, newcell(k, v)] for k, v in r]
-                nr += [["%s_is_missing" % k, V(1 if cell(kind, r, k) is None else 0)] for k in bins]
+                nr += [["%s_is_missing" % k, bit(resolve(cell(kind, r, k)))] for k in bins]
                 new_rows.append(nr)
         if kind == "scalar":
-            if bins:
-                return [ImputeRef("dense", new_rows, True, ())]
-            if optional:
-                # whether a feature without imputation gets an indicator is not pinned: value or [value, bit]
-                return [ImputeRef("scalar", new_rows, True, ()),
-                        ImputeRef("dense", [[nv, V(1 if r is None else 0)] for nv, r in zip(new_rows, orig)], True, ())]
-            return [ImputeRef("scalar", new_rows, True, ())]
-        if kind == "dense":
-            if optional or not self.len_exact:
-                # indicator columns are not pinned (now or by an earlier pass): only the known leading columns are compared
-                n0 = len(rows[0])
-                return [ImputeRef("dense", [nr[:n0] for nr in new_rows], False, ())]
-            return [ImputeRef("dense", new_rows, True, ())]
-        return [ImputeRef("sparse", new_rows, True, self.optional_keys | {"%s_is_missing" % k for k in optional})]
+            return [ImputeRef("dense" if bins else "scalar", new_rows, True, ())]
+        return [ImputeRef(kind, new_rows, True, ())]
 
 
 _LIST_PROBE = {}
@@ -802,6 +829,34 @@ def lists_applied_in_order():
         r = run_impl(case)
         _LIST_PROBE["v"] = "out" in r and is_num(r["out"][1]["v"][0]) and fr(r["out"][1]["v"][0]) == 2
     return _LIST_PROBE["v"]
+
+
+def unseen_sparse_key_imputed():
+    """does this tree impute a None under a sparse key that is absent from the whole window (fix of C11-F10)?"""
+    if "f10" not in _LIST_PROBE:
+        case = {"op": "impute", "kind": "sparse", "rows": [[["a", V(1)]], [["b", None]]], "stats": ["mean"], "ind": False,
+                "using": 1, "via": "filter", "itype": "sim"}
+        r = run_impl(case)
+        _LIST_PROBE["f10"] = "out" in r and dict(r["out"][1]["v"]).get("b") is not None
+    return _LIST_PROBE["f10"]
+
+
+def nan_is_missing():
+    """does this tree's Impute treat nan as a missing value (fix of C11-F13)?"""
+    if "f13" not in _LIST_PROBE:
+        r = run_impl({"op": "impute", "kind": "dense", "container": "tuple", "rows": [[NAN], [V(2)]], "stats": ["mean"], "ind": False,
+                      "using": None, "via": "filter", "itype": "sim"})
+        _LIST_PROBE["f13"] = "out" in r and is_num(r["out"][0]["v"][0])
+    return _LIST_PROBE["f13"]
+
+
+def indicator_without_imputation():
+    """does this tree's dense Impute add the indicator of a feature that has a missing value but no imputation (fix of C11-F14)?"""
+    if "f14" not in _LIST_PROBE:
+        r = run_impl({"op": "impute", "kind": "dense", "container": "tuple", "rows": [[V("a")], [None]], "stats": ["mean"], "ind": True,
+                      "using": None, "via": "filter", "itype": "sim"})
+        _LIST_PROBE["f14"] = "out" in r and len(r["out"][0]["v"]) == 2
+    return _LIST_PROBE["f14"]
 
 
 # ------------------------------------------------------------------ the property
@@ -828,23 +883,23 @@ class C11(Property):
     trusted_base = [
         "values are ints / dyadic floats with few bits so min/max/median/iqr/mode are exact in double precision; results involving a division "
         "(mean, 1/statistic) and stdev are compared at 1e-9 relative to the operands' magnitude",
-        "statistics.stdev is a parameter `sd` of the Lean model (theorems hold for every sd); the driver instantiates it with a 20-digit square root",
+        "statistics.stdev: the model is parametric in a square-root routine `sd` (ℚ has no √) but its specification is not: "
+        "fit_eq_spec_q / std_scale_within characterise the scale as the reciprocal square root of the exact sample variance "
+        "(`variance`, compared with statistics.variance on every std case) under SqrtExact resp. SqrtWithin δ; that the real "
+        "statistics.stdev satisfies SqrtWithin with |δ| ≤ 1e-12 is checked on every std case; the driver uses a 20-digit root",
+        "filter objects and Environments collections are modelled as state machines (`Obj.run`, `Coll.reads`, state = `_times`); "
+        "sequence cases are compared with that stateful model; Finalize/BatchSafe added by Environments.__getitem__ are not modelled",
         "CPython's min/max/sorted/statistics.median/mode/fmean are modelled by their mathematical meaning (first maximal element for mode)",
         "only contexts are modelled; that all other fields of an interaction are passed through is checked directly on the implementation",
         "the float literal .000001 in Scale._scale_value is modelled as the rational 1/10^6 (no generated statistic lies between the two)",
     ]
     assumptions = [
         "features are typed: a column holds numbers (with None/nan as missing) or strings (with None as missing), not both",
-        "Impute's notion of missing is None (as in its unit tests); nan is a number for Impute and columns holding nan are not pinned by the reference",
+        "missing = None or nan for both filters (decision of phase 2, finding C11-F13 for Impute); an indicator is demanded for every "
+        "feature with a missing value in the window, imputable or not (finding C11-F14)",
         "using >= 1 or None",
     ]
-    partial_theorems = {
-        "scale_sparse_eq_spec_partial": "hypothesis hpot `the key occurs in the fitting window`: Scale never scales a sparse key that first appears "
-                                        "after the window (finding C11-F9 for a given numeric scale; witness scale_sparse_key_outside_window_counterexample)",
-        "impute_sparse_eq_spec_partial": "hypothesis hkey `the key occurs in the fitting window`: Impute keeps a None under a sparse key that first appears "
-                                         "after the window although its window statistic (absent = 0) is 0 (finding C11-F10; witness "
-                                         "impute_sparse_key_outside_window_counterexample)",
-    }
+    partial_theorems = {}   # phase 2: the two sparse `_partial` theorems were lifted (fixes for C11-F9/F10 proposed, model mirrors them)
 
     # ---- generators
     def gen_number(self, rng, style):
@@ -1091,6 +1146,18 @@ class C11(Property):
                         cs.append({"op": "impute", "stats": [st], "ind": True, "using": using, "mode": mode,
                                    "seq": [sS, {"kind": "dense", "container": "list", "rows": [[n(1), None], [None, n(4)], [n(3), n(4)]], "itype": "sim"}, sP],
                                    "read_order": order + [2]})
+        # phase 2: nan as missing in Impute, indicator of a feature without imputation, std (exact-root and irrational variance)
+        for kind, rows in (("dense", [[n(1), V("a")], [NAN, None], [None, V("a")], [n(3), V("b")]]),
+                           ("sparse", [[["a", n(1)], ["s", V("x")]], [["a", NAN], ["s", None]], [["a", None]], [["a", n(3)], ["s", V("x")]]]),
+                           ("scalar", [n(1), NAN, None, n(3)]), ("scalar", [None, None]), ("dense", [[None], [None]]),
+                           ("sparse", [[["a", None]], [["a", None]]]), ("scalar", [V("a"), None, V("b")])):
+            for st in ("mean", "median", "mode"):
+                for ind in (False, True):
+                    for using in (None, 2):
+                        cs.append({"op": "impute", "kind": kind, "rows": rows, "stats": [st], "ind": ind, "using": using, "via": "filter", "itype": "sim"})
+        for rows in ([[n(1)], [n(3)], [n(5)]], [[n(0)], [n(2)]], [[f(2.5)], [None], [n(4)], [NAN], [n(-1)]]):
+            for sh in ("mean", n(0)):
+                cs.append({"op": "scale", "kind": "dense", "container": "tuple", "rows": rows, "shift": sh, "scale": "std", "using": None, "via": "filter", "itype": "sim"})
         # string scalar / string feature with a missing first value
         cs.append({"op": "impute", "kind": "scalar", "rows": [V("a"), None, V("b"), V("c")], "stats": ["median"], "ind": False, "using": None, "via": "filter", "itype": "sim"})
         cs.append({"op": "impute", "kind": "dense", "rows": [[None, n(1)], [V("a"), None], [V("b"), n(2)], [V("c"), n(2)]], "stats": ["median"], "ind": True, "using": None, "via": "filter", "itype": "sim"})
@@ -1123,10 +1190,9 @@ class C11(Property):
                     for sh in (V(0), "min", "mean", "median"):
                         for sc in (V(2), "minmax", "std", "iqr", "maxabs"):
                             yield dict(base, op="scale", shift=sh, scale=sc)
-                    if not any(v == NAN for v in col):
-                        for st in ("mean", "median", "mode"):
-                            for ind in (False, True):
-                                yield dict(base, op="impute", stats=[st], ind=ind)
+                    for st in ("mean", "median", "mode"):
+                        for ind in (False, True):
+                            yield dict(base, op="impute", stats=[st], ind=ind)
 
     # ---- twins: the same table in the other container kinds
     def twins(self, case):
@@ -1170,9 +1236,24 @@ class C11(Property):
         kinds = sorted(set(sc["kind"] for sc in subs))
         tags.append("seq:kinds=" + "+".join(kinds))
         nontrivial, impls, models = False, [], []
+        seq_ans = None
+        if driver is not None:
+            # (A) against the STATEFUL model: one object / one collection run over all reads (`Obj.run`, `Coll.reads`;
+            # theorems filter_stateless / collection_pointwise say this equals the per-sequence function)
+            req = {"op": "seq", "seqop": case["op"], "mode": case["mode"], "using": case.get("using"),
+                   "read_order": [idx for idx, _ in runs],
+                   "seq": [{"kind": sc["kind"], "rows": self.rows_to_lean(sc["kind"], sc["rows"])} for sc in subs]}
+            if case["op"] == "scale":
+                req["shift"], req["scale"] = param_lean(case["shift"]), param_lean(case["scale"])
+            else:
+                req["stats"], req["ind"] = case["stats"], case["ind"]
+            seq_ans = driver.ask(req)
         for pos, (idx, impl) in enumerate(runs):
             sc = dict(subs[idx], via="env" if case["mode"] == "envs" else "filter")
-            out = self.evaluate_single(sc, driver, impl=impl, in_seq=True)
+            m_ans = None
+            if seq_ans is not None:
+                m_ans = {"model": seq_ans["reads"][pos], "fits": (seq_ans.get("fits") or [None] * len(runs))[pos] or []}
+            out = self.evaluate_single(sc, driver, impl=impl, in_seq=True, model_ans=m_ans)
             if pos > 0 and any(f["kind"] in ("A", "B") for f in out["fails"]):
                 # does the same sequence pass on a fresh object?  then state was carried over from an earlier sequence
                 alone = self.evaluate_single(dict(sc, via="filter"), driver, in_seq=True)
@@ -1192,7 +1273,7 @@ class C11(Property):
             models.append(out.get("model"))
         return {"fails": fails, "nontrivial": bool(nontrivial and len(runs) > 1), "tags": tags, "impl": impls, "model": models}
 
-    def evaluate_single(self, case, driver, impl=None, in_seq=False):
+    def evaluate_single(self, case, driver, impl=None, in_seq=False, model_ans=None):
         fails, tags = [], []
         kind, rows = case["kind"], case["rows"]
         op = case["op"]
@@ -1293,23 +1374,32 @@ class C11(Property):
                 req["stats"] = case["stats"]
                 req["ind"] = case["ind"]
             skip = None
-            if op == "impute" and any(v == NAN for v in flat):
-                skip = "nan in an Impute table (not modelled)"
-            if op == "impute" and len(case["stats"]) > 1 and kind == "scalar" and any(is_str(v) for v in flat):
-                skip = "scalar string contexts with a list of statistics (indicator of a feature without imputation is not pinned)"
             if op == "impute" and len(case["stats"]) > 1 and not lists_applied_in_order():
                 b_failed = True      # (A) is meaningless while only the last statistic is applied (reported via C11-F11's case)
                 tags.append("A-skipped:lists-not-sequential")
+            if op == "impute" and len(case["stats"]) > 1 and ((case["ind"] and not indicator_without_imputation()) or
+                                                               (any(v == NAN for v in flat) and not nan_is_missing())):
+                # the reference of a later pass can be unpinned (mode ties, mixed columns), so an open finding of an earlier
+                # pass may go unseen by (B) on this case; the findings themselves are reported through their own cases
+                b_failed = True
+                tags.append("A-skipped:F13/F14-open-multipass")
+            if op == "impute" and kind == "sparse" and not unseen_sparse_key_imputed():
+                wkeys = set(k for r in window_rows(case, rows) for k, _ in r)
+                if any(is_missing(v) and k not in wkeys for r in rows for k, v in r):
+                    b_failed = True  # open finding C11-F10 (reported through its own case): the model imputes such a cell
+                    tags.append("A-skipped:F10-open")
             if skip:
                 tags.append("A-skipped")
             else:
-                ans = driver.ask(req)
+                ans = model_ans if model_ans is not None else driver.ask(req)
                 model = ans["model"]
                 d = None if b_failed else self.compare_model(case, impl, ans)
                 if main_b_failed:
                     tags.append("A-skipped:B-failed")
                 if d:
                     fails.append(F("A", "implementation and model differ: %s" % d[1], "A:%s:%s:%s" % (op, kind, d[0])))
+                if op == "scale" and case["scale"] == "std":
+                    fails += self.check_variance(case, driver, tags)
                 # (C) the model itself against the exact reference (run-time guard of the theorems' plumbing); the two
                 #     recorded sparse-key-outside-window deviations are the `_partial` hypotheses and are not demanded
                 if "err" not in model:
@@ -1321,11 +1411,32 @@ class C11(Property):
                         else:
                             cref.check_impute(case["stats"])
                     for f in cref.fails:
-                        if f["sig"].endswith("sparse-key-outside-window"):
-                            tags.append("C:hyp-false")
-                            continue
                         fails.append(F("C", "the Lean model does not meet the reference: %s" % f["what"], "C:" + f["sig"]))
         return {"fails": fails, "nontrivial": bool(nontrivial), "tags": tags, "impl": impl, "model": model}
+
+    def check_variance(self, case, driver, tags):
+        """`std`: the model's exact sample variance = statistics.variance (the function coba's stdev is the root of), and
+        the real stdev is a square root of it within 1e-12 (hypothesis `SqrtWithin` of theorem std_scale_within)"""
+        out = []
+        kind, rows = case["kind"], case["rows"]
+        win = window_rows(case, rows)
+        for k in feature_keys(kind, rows)[:2]:
+            wcol = [(V(0) if v is ABSENT else v) for v in column(kind, win, k)]
+            if any(is_str(v) for v in wcol):
+                continue
+            xs = [fr(v) for v in wcol if is_num(v)]
+            if len(xs) < 2:
+                continue
+            ans = driver.ask({"op": "variance", "xs": [[x.numerator, x.denominator] for x in xs]})
+            mv = Fraction(ans["variance"][0], ans["variance"][1])
+            pv = statistics.variance(xs)
+            tags.append("variance-checked")
+            if mv != pv:
+                out.append(F("A", "sample variance of %s: statistics.variance %s, model %s" % (xs, pv, mv), "A:variance"))
+            sd = statistics.stdev([to_py(v) for v in wcol if is_num(v)])
+            if pv > 0 and abs(Fraction(sd) ** 2 / pv - 1) > Fraction(1, 10 ** 12):
+                out.append(F("A", "statistics.stdev(%s)=%r is not the square root of the sample variance %s" % (xs, sd, pv), "A:stdev-not-sqrt"))
+        return out
 
     def changed(self, case, impl):
         kind = case["kind"]
